@@ -53,53 +53,49 @@ def _eval_isinstance(ctx, test, K, param):
 
 
 def _collect_writes(ctx, stmts, K, param, dictvar, guards, out):
-    for st in stmts:
+    from ..astpaths import cond_paths, decided_class
+    paths = cond_paths(stmts)
+    for conds, st in paths:
         if isinstance(st, ast.Assign):
             for t in st.targets:
                 if isinstance(t, ast.Name) and isinstance(st.value, ast.Dict):
                     dictvar.add(t.id)
-                    for k, v in zip(st.value.keys, st.value.values):
-                        if isinstance(k, ast.Constant):
-                            out.append((k.value, v, list(guards)))
-                elif (isinstance(t, ast.Subscript) and
-                      isinstance(t.value, ast.Name) and
-                      t.value.id in dictvar and
-                      isinstance(t.slice, ast.Constant)):
-                    out.append((t.slice.value, st.value, list(guards)))
-        elif isinstance(st, ast.If):
-            r = _eval_isinstance(ctx, st.test, K, param)
-            if r is True:
-                _collect_writes(ctx, st.body, K, param, dictvar, guards, out)
-            elif r is False:
-                _collect_writes(ctx, st.orelse, K, param, dictvar, guards,
-                                out)
-            else:
-                _collect_writes(ctx, st.body, K, param, dictvar,
-                                guards + [st.test], out)
-                _collect_writes(ctx, st.orelse, K, param, dictvar,
-                                guards + [ast.UnaryOp(op=ast.Not(),
-                                                      operand=st.test)], out)
-        elif isinstance(st, (ast.For, ast.While, ast.With, ast.Try)):
-            for fld in ('body', 'orelse', 'finalbody'):
-                _collect_writes(ctx, getattr(st, fld, []) or [], K, param,
-                                dictvar, guards, out)
+    for conds, st in paths:
+        if not isinstance(st, ast.Assign):
+            continue
+        ok, other = decided_class(conds, ctx.prog, K, param)
+        if not ok:
+            continue
+        gs = [t if pol else ast.UnaryOp(op=ast.Not(), operand=t)
+              for t, pol in other]
+        for t in st.targets:
+            if isinstance(t, ast.Name) and isinstance(st.value, ast.Dict):
+                for k, v in zip(st.value.keys, st.value.values):
+                    if isinstance(k, ast.Constant):
+                        out.append((k.value, v, list(gs)))
+            elif (isinstance(t, ast.Subscript) and
+                  isinstance(t.value, ast.Name) and
+                  t.value.id in dictvar and
+                  isinstance(t.slice, ast.Constant)):
+                out.append((t.slice.value, st.value, list(gs)))
 
 
 def _writer_for(ctx, K):
     """The function that serialises records of class K, found through the
     isinstance dispatch of _operation_to_json."""
+    from ..astpaths import cond_paths, decided_class
     C = ctx.R.cache
     disp = ctx.E.func(C + '._operation_to_json')
     p = disp.params[0]
-    for st in ast.walk(disp.node):
-        if isinstance(st, ast.If):
-            if _eval_isinstance(ctx, st.test, K, p) is True:
-                for n in ast.walk(ast.Module(body=st.body, type_ignores=[])):
-                    if isinstance(n, ast.Call):
-                        for g in ctx.prog.resolve_call(n, disp):
-                            if isinstance(g, Func) and g.cls == C:
-                                return g
-                break
+    for conds, st in cond_paths(disp.node.body):
+        ok, other = decided_class(conds, ctx.prog, K, p)
+        if not ok or not conds:
+            continue
+        for n in ast.walk(st):
+            if isinstance(n, ast.Call):
+                for g in ctx.prog.resolve_call(n, disp):
+                    if isinstance(g, Func) and g.cls == C:
+                        return g
     raise AnalysisError('no writer found for record class ' + K)
 
 
@@ -139,17 +135,20 @@ def r16_1(ctx, rc):
                 ctor[g.cls_for_ctor] = (call, g)
     # type dispatch literals of the reader
     rd_types = {}
-    for n in ast.walk(reader.node):
-        if isinstance(n, ast.If) and isinstance(n.test, ast.Compare) and \
-                len(n.test.ops) == 1 and isinstance(n.test.ops[0], ast.Eq) \
-                and isinstance(n.test.comparators[0], ast.Constant):
-            lit = n.test.comparators[0].value
-            for c in ast.walk(ast.Module(body=n.body, type_ignores=[])):
-                if isinstance(c, ast.Call):
-                    for g in prog.resolve_call(c, reader):
-                        if isinstance(g, Func) and g.is_ctor_call and \
-                                g.cls_for_ctor in R.record_classes:
-                            rd_types.setdefault(g.cls_for_ctor, lit)
+    from ..astpaths import cond_paths, eq_const_fact
+    for conds, st in cond_paths(reader.node.body):
+        lits = [eq_const_fact(t)[1] for t, pol in conds
+                if eq_const_fact(t) is not None and
+                isinstance(eq_const_fact(t)[1], str) and
+                pol != eq_const_fact(t)[2]]
+        if not lits:
+            continue
+        for c in ast.walk(st):
+            if isinstance(c, ast.Call):
+                for g in prog.resolve_call(c, reader):
+                    if isinstance(g, Func) and g.is_ctor_call and \
+                            g.cls_for_ctor in R.record_classes:
+                        rd_types.setdefault(g.cls_for_ctor, lits[-1])
     total = 0
     for K in R.concrete_records:
         if K not in ctor:
